@@ -442,3 +442,211 @@ func countMapD(m map[string][]*mDiamond) map[string]string {
 	}
 	return o
 }
+
+func init() {
+	Register(&Scenario{Prop: "C07", Name: "listing-api-created", Strict: true, Quick: 3, Thorough: 4, Run: runC07API})
+}
+
+// runC07API populates the stores through the real API (create repo, upload, label set, diamond initialize, split add,
+// commit / cancel) instead of seeding objects, then lists everything with small pages.
+func runC07API(rc *RunCtx) *simkit.Violation {
+	const prop = "C07"
+	w := rc.W
+	t := w.W
+	d := newDM(rc)
+	setup := w.Client("setup")
+	leaf := uint32(64)
+	names := []string{"a", "a-b", "ab"}
+	nRepos := t.Range(1, 3)
+	type rstate struct {
+		model    *mRepo
+		diamonds []*mDiamond
+	}
+	repos := map[string]*rstate{}
+	for i := 0; i < nRepos; i++ {
+		rn := names[i]
+		if v := createRepo(prop, d, setup, rn); v != nil {
+			return v
+		}
+		rs := &rstate{model: &mRepo{Name: rn, Labels: map[string]string{}}}
+		repos[rn] = rs
+		for b := 0; b < t.Range(0, 3); b++ {
+			if _, v := addBundle(prop, d, setup, rs.model, Tree{fmt.Sprintf("f%d", b): t.Bytes(t.Range(0, 90))}, leaf, 2); v != nil {
+				return v
+			}
+			time.Sleep(1100 * time.Millisecond)
+			if t.Bool(1, 2) {
+				if v := addLabel(prop, d, setup, rs.model, fmt.Sprintf("v%d", b), rs.model.Bundles[t.Choose(len(rs.model.Bundles))].ID); v != nil {
+					return v
+				}
+			}
+		}
+		for di := 0; di < t.Range(0, 2); di++ {
+			ct, v := doOp(prop, w, setup, "diamond-init", createDiamondFn(d.Stores(setup), rn))
+			if v != nil {
+				return v
+			}
+			if ct.Err != nil {
+				return Viol(prop, "harness", "CreateDiamond", rn, "%v", ct.Err)
+			}
+			md := &mDiamond{ID: ct.Result.(string), State: model.DiamondInitialized}
+			time.Sleep(1100 * time.Millisecond)
+			for si := 0; si < t.Range(0, 3); si++ {
+				src := memDisk()
+				_ = writeTree(src, Tree{fmt.Sprintf("s%d/x", si): t.Bytes(10), "shared": []byte("same")})
+				var sid string
+				st, v := doOp(prop, w, setup, "split-add", splitAddFn(d.Stores(setup), rn, md.ID, "", src, 2, leaf, &sid))
+				if v != nil {
+					return v
+				}
+				if st.Err != nil {
+					return Viol(prop, "harness", "split add", rn, "%v", st.Err)
+				}
+				md.Splits = append(md.Splits, &mSplit{ID: sid, Done: true})
+				time.Sleep(1100 * time.Millisecond)
+			}
+			switch {
+			case len(md.Splits) > 0 && t.Bool(1, 2):
+				cm, v := doOp(prop, w, setup, "commit", commitFn(d.Stores(setup), rn, md.ID, model.IgnoreConflicts, leaf, nil))
+				if v != nil {
+					return v
+				}
+				if cm.Err != nil {
+					return Viol(prop, "harness", "commit", rn, "%v", cm.Err)
+				}
+				md.State = model.DiamondDone
+				rs.model.Bundles = append(rs.model.Bundles, &mBundle{ID: cm.Result.(commitRes).BundleID})
+			case t.Bool(1, 3):
+				cn, v := doOp(prop, w, setup, "cancel", cancelFn(d.Stores(setup), rn, md.ID))
+				if v != nil {
+					return v
+				}
+				if cn.Err != nil {
+					return Viol(prop, "harness", "cancel", rn, "%v", cn.Err)
+				}
+				md.State = model.DiamondCanceled
+			}
+			rs.diamonds = append(rs.diamonds, md)
+		}
+	}
+	cl := w.Client("lister")
+	st := d.Stores(cl)
+	opt := func() []core.Option {
+		return []core.Option{core.BatchSize(t.Pick(1, 2, 3, 1024)), core.ConcurrentList(t.Pick(1, 4))}
+	}
+	sameSet := func(what, where string, got, want []string, ordered bool) *simkit.Violation {
+		g, wv := append([]string(nil), got...), append([]string(nil), want...)
+		if !ordered {
+			sort.Strings(g)
+			sort.Strings(wv)
+		}
+		if fmt.Sprint(g) != fmt.Sprint(wv) {
+			cls := "missing"
+			if len(g) >= len(wv) {
+				cls = "foreign"
+			}
+			gs, ws := append([]string(nil), g...), append([]string(nil), wv...)
+			sort.Strings(gs)
+			sort.Strings(ws)
+			if fmt.Sprint(gs) == fmt.Sprint(ws) {
+				cls = "order"
+			}
+			return Viol(prop, cls, what, where, "%s(%s) returned %v, the API created %v", what, where, tails(g), tails(wv))
+		}
+		return nil
+	}
+	w.Note("%d repos populated through the API", nRepos)
+	for _, rn := range sortedKeys(repos) {
+		rs := repos[rn]
+		lt, v := doOp(prop, w, cl, "list-bundles", func() (interface{}, error) { return core.ListBundles(rn, st, opt()...) })
+		if v != nil {
+			return v
+		}
+		if lt.Err != nil {
+			return Viol(prop, "list-error", "ListBundles", rn, "%v", lt.Err)
+		}
+		var got []string
+		for _, b := range lt.Result.(model.BundleDescriptors) {
+			got = append(got, b.ID)
+		}
+		if v := sameSet("ListBundles", rn, got, rs.model.ids(), true); v != nil {
+			return v
+		}
+		ll, v := doOp(prop, w, cl, "list-labels", func() (interface{}, error) { return core.ListLabels(rn, st, opt()...) })
+		if v != nil {
+			return v
+		}
+		if ll.Err != nil {
+			return Viol(prop, "list-error", "ListLabels", rn, "%v", ll.Err)
+		}
+		got = nil
+		for _, l := range ll.Result.([]model.LabelDescriptor) {
+			got = append(got, l.Name)
+		}
+		if v := sameSet("ListLabels", rn, got, sortedKeys(rs.model.Labels), false); v != nil {
+			return v
+		}
+		ld, v := doOp(prop, w, cl, "list-diamonds", func() (interface{}, error) { return core.ListDiamonds(rn, st, opt()...) })
+		if v != nil {
+			return v
+		}
+		if ld.Err != nil {
+			return Viol(prop, "list-error", "ListDiamonds", rn, "%v", ld.Err)
+		}
+		got = nil
+		var want []string
+		for _, x := range ld.Result.(model.DiamondDescriptors) {
+			got = append(got, x.DiamondID)
+			for _, md := range rs.diamonds {
+				if md.ID == x.DiamondID && md.State != x.State {
+					return Viol(prop, "diamond-state", "ListDiamonds", x.DiamondID, "diamond listed as %q, its state is %q", x.State, md.State)
+				}
+			}
+		}
+		for _, md := range rs.diamonds {
+			want = append(want, md.ID)
+		}
+		if v := sameSet("ListDiamonds", rn, got, want, true); v != nil {
+			return v
+		}
+		for _, md := range rs.diamonds {
+			did := md.ID
+			ls, v := doOp(prop, w, cl, "list-splits", func() (interface{}, error) { return core.ListSplits(rn, did, st, opt()...) })
+			if v != nil {
+				return v
+			}
+			if ls.Err != nil {
+				return Viol(prop, "list-error", "ListSplits", did, "%v", ls.Err)
+			}
+			got, want = nil, nil
+			for _, x := range ls.Result.(model.SplitDescriptors) {
+				got = append(got, x.SplitID)
+				if x.State != model.SplitDone {
+					return Viol(prop, "split-state", "ListSplits", x.SplitID, "a completed split is listed as %q", x.State)
+				}
+			}
+			for _, ms := range md.Splits {
+				want = append(want, ms.ID)
+			}
+			if v := sameSet("ListSplits", rn+"/"+tail4(did), got, want, true); v != nil {
+				return v
+			}
+		}
+	}
+	lr, v := doOp(prop, w, cl, "list-repos", func() (interface{}, error) { return core.ListRepos(st, opt()...) })
+	if v != nil {
+		return v
+	}
+	if lr.Err != nil {
+		return Viol(prop, "list-error", "ListRepos", "", "%v", lr.Err)
+	}
+	var got []string
+	for _, r := range lr.Result.([]model.RepoDescriptor) {
+		got = append(got, r.Name)
+	}
+	if v := sameSet("ListRepos", "", got, sortedKeys(repos), false); v != nil {
+		return v
+	}
+	w.Probe("nontrivial")
+	return nil
+}
